@@ -1154,7 +1154,8 @@ func (e *Env) call(n *ast.CallExpr) Val {
 			if a.K != VSlice || b.K != VSlice {
 				e.fail("disjoint needs slices")
 			}
-			return scalar(bt, not(eq(a.Sub[0].S, b.Sub[0].S)))
+			// (a nil slice has no backing array and shares one with nothing)
+			return scalar(bt, or(eq(a.Sub[0].S, "0"), eq(b.Sub[0].S, "0"), not(eq(a.Sub[0].S, b.Sub[0].S))))
 		case "ghost":
 			return e.ghost(n)
 		case "ghostat":
